@@ -129,7 +129,7 @@ func init() {
 		ID:              "C01lab",
 		PopulateProfile: &c09Populate,
 		PopulateBlocks:  120,
-		Inputs:          map[string]int{"quick": 600, "thorough": 6000},
+		Inputs:          map[string]int{"quick": 1200, "thorough": 8000},
 		Batches:         map[string]int{"quick": 4, "thorough": 16},
 		One:             c01LabOne,
 	})
